@@ -345,6 +345,7 @@ func (g *gen) families12() {
 	// tensor's own dims / element type: the weight is what its TensorProto says
 	g.signatureFamily()
 	g.foreignFieldFamily()
+	g.nameFamily()
 	g.metadataFamily()
 	// U. byte-level single-fault spaces of small weight-only files, exhaustively
 	for _, b := range weightOnly {
@@ -525,6 +526,54 @@ func (g *gen) pairFamily() {
 				mp := &onnx.ModelProto{IrVersion: 7, Graph: gp, OpsetImport: []*onnx.OperatorSetIdProto{{Version: 13}}}
 				data, _ := proto.MarshalOptions{Deterministic: true}.Marshal(mp)
 				g.run(&Case{Family: "initializer-pairs", Base: fmt.Sprintf("%d bytes %s variant %d", nbytes, fill, vi), Reader: "bytes", ZipFail: -1, Data: data}, true)
+			}
+		}
+	}
+}
+
+// nameFamily: several initializers whose NAMES are different strings but become equal under a normalisation a loader
+// might be tempted to apply (white space trimming, case folding, Unicode NFC/NFD, separators, a ":0" suffix); each
+// carries its own values and must come back under its own name with them.
+func (g *gen) nameFamily() {
+	groups := [][]string{
+		{"caf\u00e9", "cafe\u0301", "caf\u00e9 ", " caf\u00e9", "CAF\u00c9", "Caf\u00e9", "caf\u00e9\u200d"},
+		{"Stra\u00dfe", "STRASSE", "stra\u00dfe", "\u017ftra\u00dfe", "strasse", "Strasse"},
+		{"w", "W", "w ", " w", "w\t", "w\n", "w\x00", "\ufeffw"},
+		{"a/b", "a\\b", "a.b", "a:b", "a_b", "a b", "a//b", "/a/b", "a/b/"},
+		{"layer.0.weight", "layer_0_weight", "layer/0/weight", "layer.0.weight:0", "layer.0.weight:1", "layer.00.weight", "Layer.0.Weight"},
+		{"K", "k", "\u212a", "\u041a", "\u039a"},
+		{"1", "01", "1.0", "+1", "1 ", "\uff11"},
+	}
+	for gi, names := range groups {
+		for _, dt := range []val.DT{val.Float32, val.Int64, val.Float64} {
+			for _, raw := range []bool{true, false} {
+				for rot := 0; rot < 2; rot++ {
+					if !g.mine() || g.stop {
+						continue
+					}
+					gp := &onnx.GraphProto{Name: "g"}
+					for i := range names {
+						name := names[(i+rot*3)%len(names)]
+						v := &val.V{DT: dt, Shape: []int{2}, Bits: make([]uint64, 2)}
+						for k := range v.Bits {
+							x := float64(10*(i+1) + k)
+							switch dt {
+							case val.Float32:
+								v.Bits[k] = uint64(math.Float32bits(float32(x)))
+							case val.Float64:
+								v.Bits[k] = math.Float64bits(x)
+							default:
+								v.Bits[k] = uint64(int64(x))
+							}
+						}
+						tp := mb.TensorProto(&mb.Init{Name: name, V: v, Raw: raw})
+						gp.Initializer = append(gp.Initializer, tp)
+						gp.Output = append(gp.Output, &onnx.ValueInfoProto{Name: name})
+					}
+					mp := &onnx.ModelProto{IrVersion: 7, Graph: gp, OpsetImport: []*onnx.OperatorSetIdProto{{Version: 13}}}
+					data, _ := proto.MarshalOptions{Deterministic: true}.Marshal(mp)
+					g.run(&Case{Family: "initializer-names", Base: fmt.Sprintf("group %d %s raw=%v rot=%d", gi, dt, raw, rot), Reader: "bytes", ZipFail: -1, Data: data}, true)
+				}
 			}
 		}
 	}
